@@ -7,6 +7,8 @@ VERIF = os.path.dirname(os.path.abspath(__file__))
 
 # (property, obligation regex, witness name, kind)   kind: "public" (replay crate) | "private" (scratch copy + cfg(test) module)
 WITNESSES = [
+    ("C09", r"local/From::from/post:referral_records_are_not_answer_records", "c09_referral_in_answer_section", "public"),
+    ("C10", r"local/From::from/post:referral_records_are_not_answer_records", "c09_referral_in_answer_section", "public"),
     ("C06", r"upstream_filter/validate_nameserver_response/", "c06_offpath_cname_foreign_ns", "private"),
     ("C15", r"cache/PartitionedCache::upsert/(assert:next_expiry_is_lower_bound|post:cache_invariants_kept_by_upsert)", "c15_prune_after_reinsert", "public"),
     ("C02", r"zone_lookup/Zone::resolve/post:lookup_algorithm_at_apex", "c02_apex_ns_referral", "public"),
